@@ -625,7 +625,9 @@ func c16Cases(full bool) []c16Case {
 		"Sun, 06 Nov 1994 08:49:37.5 GMT", "Sun, 06 Nov 1994 08:49:37,25 GMT", "Sun, 06 Nov 1994 08:49:37.000 GMT",
 		// shapes time.Parse tolerates: one-digit fields, other letter case
 		"Sun, 06 Nov 1994 8:49:37 GMT", "Sun, 6 Nov 1994 08:49:37 GMT", "Sun, 06 Nov 1994 08:9:37 GMT", "sun, 06 nov 1994 08:49:37 GMT", "SUN, 06 NOV 1994 08:49:37 GMT", "Sun, 06 Nov 1994 08:49:37 gmt",
-		"Sunday, 06-Nov-94 8:49:37 GMT", "sunday, 06-nov-94 08:49:37 GMT", "Sun Nov 6 08:49:37 1994", "sun nov  6 08:49:37 1994"} {
+		"Sunday, 06-Nov-94 8:49:37 GMT", "sunday, 06-nov-94 08:49:37 GMT", "Sun Nov 6 08:49:37 1994", "sun nov  6 08:49:37 1994",
+		// the obsolete RFC 850 form with another zone than GMT (the layout of the standard library has a zone field there)
+		"Sunday, 06-Nov-94 08:49:37 PST", "Sunday, 06-Nov-94 08:49:37 CEST", "Sunday, 06-Nov-94 08:49:37 GMT+3", "Sunday, 06-Nov-94 08:49:37 UTC", "Sunday, 06-Nov-94 08:49:37 MST"} {
 		if !inHTTPDateGrammar(s) {
 			add("time", "reject", s, "")
 		}
@@ -826,10 +828,19 @@ func init() {
 					sel = append(sel, g[30+k*(len(g)-30)/30])
 				}
 			}
+			// what each case yields on its own (a case that fails alone is the business of the main part - and of
+			// KNOWN_FINDINGS.json - not a history effect)
+			alone := make([]string, len(sel))
+			for i, c := range sel {
+				alone[i], _ = c16Eval(c)
+			}
 			for ai, a := range sel {
 				for bi, b := range sel {
 					c16Eval(a)
 					class, detail := c16Eval(b)
+					if class == alone[bi] {
+						class = ""
+					}
 					s.Transition()
 					s.Transition()
 					s.Clause("history independence: " + gorder[gi])
@@ -847,9 +858,10 @@ func init() {
 		if err := json.Unmarshal(raw, &c); err != nil {
 			return false, err.Error()
 		}
+		alone, _ := c16Eval(c.Second)
 		c16Eval(c.First)
 		class, detail := c16Eval(c.Second)
-		return class == "", class + " " + detail
+		return class == alone, class + " " + detail + " (alone: " + alone + ")"
 	})
 	registerReplay("C16", func(raw json.RawMessage) (bool, string) {
 		var c c16Case
